@@ -979,5 +979,45 @@ func veBlockedGoroutines() string {
 			out = append(out, strings.Join(keep, "\n"))
 		}
 	}
-	return fmt.Sprintf("%s\n(%d converter processes waiting for input, %d idle service loops)", strings.Join(out, "\n--\n"), idleProc, idleLoop)
+	return fmt.Sprintf("%s\n(%d converter processes waiting for input, %d idle service loops)\nchild processes:\n%s", strings.Join(out, "\n--\n"), idleProc, idleLoop, veChildProcesses())
+}
+
+// veChildProcesses describes the child processes of the test process (the converter executables): state, what
+// they wait in, their standard descriptors.
+func veChildProcesses() string {
+	self := os.Getpid()
+	ents, _ := os.ReadDir("/proc")
+	var out []string
+	for _, e := range ents {
+		pid, err := strconv.Atoi(e.Name())
+		if err != nil {
+			continue
+		}
+		st, err := os.ReadFile(fmt.Sprintf("/proc/%d/stat", pid))
+		if err != nil {
+			continue
+		}
+		// pid (comm) state ppid ...
+		txt := string(st)
+		r := strings.LastIndex(txt, ")")
+		if r < 0 {
+			continue
+		}
+		f := strings.Fields(txt[r+1:])
+		if len(f) < 2 || f[1] != strconv.Itoa(self) {
+			continue
+		}
+		wchan, _ := os.ReadFile(fmt.Sprintf("/proc/%d/wchan", pid))
+		cmd, _ := os.ReadFile(fmt.Sprintf("/proc/%d/cmdline", pid))
+		fds := []string{}
+		for fd := 0; fd < 3; fd++ {
+			l, _ := os.Readlink(fmt.Sprintf("/proc/%d/fd/%d", pid, fd))
+			fds = append(fds, l)
+		}
+		out = append(out, fmt.Sprintf("pid %d state %s wchan %q cmd %q fds %v", pid, f[0], wchan, strings.ReplaceAll(string(cmd), "\x00", " "), fds))
+		if len(out) >= 40 {
+			break
+		}
+	}
+	return strings.Join(out, "\n")
 }
